@@ -133,7 +133,7 @@ func runC07(c *Ctx) {
 		good := loopCall != nil && wait != nil && sweep != nil && dominates(loopCall, wait) && dominates(wait, sweep)
 		if good {
 			for _, r := range findInstrs(rs, isReturn) {
-				if !dominates(sweep, r) {
+				if !dominates(sweep, r) && !behindEmptyTableTest(rs, r, "openRequests", wait) {
 					good = false
 				}
 			}
